@@ -1,5 +1,6 @@
 (** C06 — Filters keep exactly the measurements their boolean meaning denotes.
-    Statements only; proofs are in Proofs/FilterEval.v.
+    Statements only; proofs are in Proofs/FilterEval.v, Proofs/FilterMask.v
+    (uint32 words, All/Any exact) and Proofs/FilterFixed.v (fixed-list filters).
 
     [eval] is the model of the compiled filter of benchproc/filter.go (closures
     returning (mask, bool), 32-bit mask words, NOT/AND/OR with short-circuit
@@ -7,7 +8,7 @@
     measurement; [rematch] stands for regexp matching (any function). The
     number of measurements is [length (fr_units r)]. *)
 From Perf Require Import Base.Bytes Model.Name Model.Extract Model.FilterAst Model.FilterParse
-  Model.ProjParse Model.FilterEval Proofs.FilterEval.
+  Model.ProjParse Model.FilterEval Proofs.FilterEval Proofs.FilterMask Proofs.FilterFixed.
 
 (** measurement i is matched iff the expression is true of measurement i —
     for every expression tree, every result, every measurement count *)
@@ -34,23 +35,231 @@ Theorem C06_apply_keeps_exactly :
 Proof. intros; now apply apply_keeps_exactly. Qed.
 Print Assumptions C06_apply_keeps_exactly.
 
-(** All / Any at word level. Proved: the directions Apply relies on.
-    Full statements (not proved: they additionally need the invariant that
-    every mask word is below 2^32):
-      match_all n (eval f r) = forallb (denote f r) (seq 0 n)
-      match_any n (eval f r) = existsb (denote f r) (seq 0 n)
-    Both equalities are checked on every generated case by prop_ok. *)
-Theorem C06_all_forall_partial :
-  forall rematch r f, match_all (length (fr_units r)) (eval rematch f r) = true ->
-  forall i, i < length (fr_units r) -> denote rematch f r i = true.
-Proof. exact all_sound. Qed.
-Print Assumptions C06_all_forall_partial.
+(** All = "the expression is true of every measurement", Any = "of some
+    measurement": exact, for every tree, result and measurement count n >= 1.
+    The proof goes through the invariant that every mask word is a uint32
+    ([eval_wf]) and the exact treatment of the bits >= n of the last word,
+    which NOT sets and which All/Any neutralise with 0xffffffff << (n - i*32). *)
+Theorem C06_all_forall :
+  forall rematch r f, 1 <= length (fr_units r) ->
+  match_all (length (fr_units r)) (eval rematch f r)
+  = forallb (denote rematch f r) (seq 0 (length (fr_units r))).
+Proof. exact all_forall. Qed.
+Print Assumptions C06_all_forall.
 
-Theorem C06_any_exists_partial :
-  forall rematch r f, match_any (length (fr_units r)) (eval rematch f r) = false ->
-  forall i, i < length (fr_units r) -> denote rematch f r i = false.
-Proof. exact any_sound. Qed.
-Print Assumptions C06_any_exists_partial.
+Theorem C06_any_exists :
+  forall rematch r f, 1 <= length (fr_units r) ->
+  match_any (length (fr_units r)) (eval rematch f r)
+  = existsb (denote rematch f r) (seq 0 (length (fr_units r))).
+Proof. exact any_exists. Qed.
+Print Assumptions C06_any_exists.
+
+(** n = 0 (not producible by the reader): with a mask (some .unit term was
+    evaluated) All = true and Any = false, as "for all"/"exists" over nothing;
+    without a mask both return the value of the expression with every .unit
+    term false — so All is false where "for all" is true when that value is
+    false, and Any is true where "exists" is false when it is true. *)
+Theorem C06_all_any_empty :
+  forall rematch r f, length (fr_units r) = 0 ->
+  match fst (eval rematch f r) with
+  | Some _ => match_all 0 (eval rematch f r) = true /\ match_any 0 (eval rematch f r) = false
+  | None => match_all 0 (eval rematch f r) = denote rematch f r 0
+            /\ match_any 0 (eval rematch f r) = denote rematch f r 0
+  end.
+Proof. exact all_any_empty. Qed.
+Print Assumptions C06_all_any_empty.
+
+(** the word-level facts under the two theorems above *)
+Theorem C06_mask_words_uint32 : forall rematch r f, wf_res (eval rematch f r).
+Proof. exact eval_wf. Qed.
+Print Assumptions C06_mask_words_uint32.
+
+(** 0xffffffff << k on uint32: bits k..31; = 2^32 - 2^k for k <= 32, 0 from 32 on *)
+Theorem C06_shl_ones :
+  (forall k c, N.testbit (N.shiftl ones32 k mod two32) c = (k <=? c)%N && (c <? 32)%N)
+  /\ (forall k, (k <= 32)%N -> (N.shiftl ones32 k mod two32 = two32 - 2 ^ k)%N)
+  /\ (forall k, (32 <= k)%N -> (N.shiftl ones32 k mod two32 = 0)%N).
+Proof. exact (conj shl_ones_bits (conj shl_ones_value shl_ones_zero)). Qed.
+Print Assumptions C06_shl_ones.
+
+(** (n+31)/32 words: word w exists iff it holds a measurement, so the shift
+    count n - w*32 in All/Any is >= 1 (never negative); i < n lives in word i/32 *)
+Theorem C06_word_count :
+  (forall nn, nn <= nwords nn * 32 < nn + 32)
+  /\ (forall w nn, w < nwords nn <-> w * 32 < nn)
+  /\ (forall i nn, i < nn <-> i / 32 < nwords nn /\ (i / 32) * 32 + i mod 32 < nn).
+Proof. exact (conj nwords_bounds (conj nwords_iff word_index_iff)). Qed.
+Print Assumptions C06_word_count.
+
+(** per word: &=, |=, ^ keep uint32; ^x flips the 32 low bits and is 0xffffffff - x *)
+Theorem C06_word_ops :
+  (forall a b, word32 a -> word32 (N.land a b))
+  /\ (forall a b, word32 a -> word32 b -> word32 (N.lor a b))
+  /\ (forall x, word32 (not32 x))
+  /\ (forall x c, N.testbit (not32 x) c = (c <? 32)%N && negb (N.testbit x c))
+  /\ (forall x, word32 x -> not32 x = (ones32 - x)%N).
+Proof. exact (conj word32_land (conj word32_lor (conj word32_not32 (conj not32_bits not32_value)))). Qed.
+Print Assumptions C06_word_ops.
+
+(** one word of All / Any: x | high = 0xffffffff iff all bits of x that belong
+    to measurements < n are set; x &^ high = 0 iff none is *)
+Theorem C06_all_any_word :
+  forall nn i x, word32 x ->
+  ((N.lor x (high_bits nn i) =? ones32)%N = true <->
+     forall b, b < 32 -> i * 32 + b < nn -> N.testbit x (N.of_nat b) = true)
+  /\ ((N.ldiff x (high_bits nn i) =? 0)%N = true <->
+     forall b, b < 32 -> i * 32 + b < nn -> N.testbit x (N.of_nat b) = false).
+Proof. intros nn i x Hx. exact (conj (all_word_iff nn i x Hx) (any_word_iff nn i x Hx)). Qed.
+Print Assumptions C06_all_any_word.
+
+(** Apply's return value: it is Any, it says whether anything remains, and it
+    is true iff some measurement satisfies the expression (n >= 1) *)
+Theorem C06_apply_reports_any :
+  forall rematch r f (A : Type) (vals : list A),
+  length vals = length (fr_units r) -> 1 <= length (fr_units r) ->
+  snd (match_apply (eval rematch f r) vals) = match_any (length (fr_units r)) (eval rematch f r)
+  /\ snd (match_apply (eval rematch f r) vals) = negb (is_nil (fst (match_apply (eval rematch f r) vals)))
+  /\ (snd (match_apply (eval rematch f r) vals) = true <->
+      exists i, i < length (fr_units r) /\ denote rematch f r i = true).
+Proof. intros; now apply apply_reports_any. Qed.
+Print Assumptions C06_apply_reports_any.
+
+(** Filter.Match hands the result back as it received it, can be repeated,
+    and does not change what a later Apply does. In the functional model this
+    holds by construction ([filter_match f r = (r, eval f r)]: the evaluator has
+    no access to a result to write to); that the real Match leaves the real
+    object untouched is checked on every generated case (field [unchanged] of
+    the case, required by prop_ok). *)
+Theorem C06_match_pure :
+  forall rematch r f,
+  fst (filter_match rematch f r) = r
+  /\ filter_match rematch f (fst (filter_match rematch f r)) = filter_match rematch f r
+  /\ filter_apply rematch f (fst (filter_match rematch f r)) = filter_apply rematch f r.
+Proof. exact match_pure. Qed.
+Print Assumptions C06_match_pure.
+
+(** Apply, by contrast, rewrites the measurements *)
+Example C06_apply_modifies :
+  let r := mkRes (bs "Fib") [] [(bs "sec/op", bs "ns/op"); (bs "B/op", [])] in
+  let f := FMatch (bs ".unit") (MLit (bs "B/op")) 0 in
+  filter_apply (fun _ _ => false) f r = (mkRes (bs "Fib") [] [(bs "B/op", [])], true)
+  /\ fst (filter_match (fun _ _ => false) f r) = r.
+Proof. split; vm_compute; reflexivity. Qed.
+
+(** ** fixed-list filters of projections (ProjectionParser.Parse)
+    [wrap all_keys ps r inner] is the caller's filter result [inner] after the
+    projections [ps] were parsed in order, each conjoining its fixed fields.
+    A measurement passes iff every fixed field's PROJECTED value ([proj_value]:
+    for .fullname the name with the parser's excluded parts deleted,
+    [extractor_fullname all_keys]) is one of its listed words and the caller's
+    expression is true of it. *)
+Theorem C06_fixed_list_filter :
+  forall r all_keys rematch ps f i, i < length (fr_units r) ->
+  match_test (length (fr_units r)) (wrap all_keys ps r (eval rematch f r)) i
+  = fixed_keeps all_keys ps r && denote rematch f r i.
+Proof. exact fixed_list_filter. Qed.
+Print Assumptions C06_fixed_list_filter.
+
+(** [fixed_keeps] read as a proposition *)
+Theorem C06_fixed_keeps_iff :
+  forall r all_keys ps,
+  fixed_keeps all_keys ps r = true <->
+  forall fields p, In fields ps -> In p fields -> pf_order p = ord_fixed ->
+    In (proj_value all_keys (pf_key p) r) (pf_fixed p).
+Proof. exact fixed_keeps_iff. Qed.
+Print Assumptions C06_fixed_keeps_iff.
+
+(** the single field k@(v1 … vm) *)
+Theorem C06_fixed_list_field :
+  forall r all_keys rematch f p i, pf_order p = ord_fixed -> i < length (fr_units r) ->
+  (match_test (length (fr_units r)) (wrap all_keys [[p]] r (eval rematch f r)) i = true <->
+   In (proj_value all_keys (pf_key p) r) (pf_fixed p) /\ denote rematch f r i = true).
+Proof. exact fixed_list_field. Qed.
+Print Assumptions C06_fixed_list_field.
+
+(** All / Any / Apply of the conjoined filter *)
+Theorem C06_fixed_list_all_any :
+  forall r all_keys rematch ps f, 1 <= length (fr_units r) ->
+  match_all (length (fr_units r)) (wrap all_keys ps r (eval rematch f r))
+  = fixed_keeps all_keys ps r && forallb (denote rematch f r) (seq 0 (length (fr_units r)))
+  /\ match_any (length (fr_units r)) (wrap all_keys ps r (eval rematch f r))
+  = fixed_keeps all_keys ps r && existsb (denote rematch f r) (seq 0 (length (fr_units r))).
+Proof. intros. split; [now apply fixed_list_all|now apply fixed_list_any]. Qed.
+Print Assumptions C06_fixed_list_all_any.
+
+Theorem C06_fixed_list_apply :
+  forall r all_keys rematch ps f (A : Type) (vals : list A),
+  length vals = length (fr_units r) -> 1 <= length (fr_units r) ->
+  match_apply (wrap all_keys ps r (eval rematch f r)) vals =
+  (if fixed_keeps all_keys ps r then keep (denote rematch f r) vals 0 else [],
+   fixed_keeps all_keys ps r && existsb (denote rematch f r) (seq 0 (length (fr_units r)))).
+Proof. intros; now apply fixed_list_apply. Qed.
+Print Assumptions C06_fixed_list_apply.
+
+(** the projected value: .fullname is filtered on the name with the excluded
+    parts deleted (not on the raw full name); every other key on its extractor *)
+Theorem C06_fixed_list_projected_value :
+  forall r all_keys,
+  proj_value all_keys key_fullname r = extractor_fullname all_keys (fr_name r)
+  /\ forall k, k <> key_fullname -> proj_value all_keys k r = extract k (fr_name r) (fr_cfg r).
+Proof. intros r ak. exact (conj (proj_value_fullname r ak) (proj_value_other r ak)). Qed.
+Print Assumptions C06_fixed_list_projected_value.
+
+(** the empty word: a file-configuration key that the result lacks (or has
+    with an empty value) projects to "", and a field whose projected value is
+    "" keeps the result iff "" is one of the listed words *)
+Theorem C06_fixed_list_empty_word :
+  forall r all_keys,
+  (forall k, k <> key_name -> k <> key_fullname -> is_subname_key k = false ->
+     match cfg_lookup (fr_cfg r) k with Some c => c_val c = [] | None => True end ->
+     proj_value all_keys k r = [])
+  /\ (forall p, pf_order p = ord_fixed -> proj_value all_keys (pf_key p) r = [] ->
+       (field_keeps all_keys p r = true <-> In [] (pf_fixed p))).
+Proof. intros r ak. exact (conj (proj_value_absent r ak) (fixed_list_empty_word r ak)). Qed.
+Print Assumptions C06_fixed_list_empty_word.
+
+(** non-vacuity, through the parser: ".fullname@(Fib-8)" parsed together with
+    "/k" filters on the projected name "Fib-8" (the raw full name is
+    "Fib/k=1-8" and is not in the list); goos@(linux "") accepts a result
+    without goos through the empty word and rejects goos:plan9 *)
+Example C06_fixed_example :
+  let parse q := match new_projection Rune.go_is_space (fun _ => true) q with Ok l => l | _ => [] end in
+  let ps := [parse (bs ".fullname@(Fib-8)"); parse (bs "/k")] in
+  let r := mkRes (bs "Fib/k=1-8") [] [(bs "sec/op", bs "ns/op"); (bs "B/op", [])] in
+  let star := FAnd [] in
+  map pf_fixed (concat ps) = [[bs "Fib-8"]; []]
+  /\ fullname_keys ps = [bs "/k"]
+  /\ proj_value (fullname_keys ps) key_fullname r = bs "Fib-8"
+  /\ full (fr_name r) = bs "Fib/k=1-8"
+  /\ fixed_keeps (fullname_keys ps) ps r = true
+  /\ match_apply (wrap (fullname_keys ps) ps r (eval (fun _ _ => false) star r)) (seq 0 2) = ([0; 1], true)
+  /\ (let qs := [parse (bs "goos@(linux """")")] in
+      map pf_fixed (concat qs) = [[bs "linux"; []]]
+      /\ fixed_keeps (fullname_keys qs) qs r = true
+      /\ fixed_keeps (fullname_keys qs) qs (mkRes (bs "Fib") [mkCfg (bs "goos") (bs "plan9") true] []) = false).
+Proof. vm_compute. repeat split; reflexivity. Qed.
+
+(** AND, OR, NOT through Test *)
+Theorem C06_and_is_conjunction :
+  forall rematch r l i, i < length (fr_units r) ->
+  match_test (length (fr_units r)) (eval rematch (FAnd l) r) i
+  = forallb (fun g => match_test (length (fr_units r)) (eval rematch g r) i) l.
+Proof. exact and_is_conjunction. Qed.
+Print Assumptions C06_and_is_conjunction.
+
+Theorem C06_or_is_disjunction :
+  forall rematch r l i, i < length (fr_units r) ->
+  match_test (length (fr_units r)) (eval rematch (FOr l) r) i
+  = existsb (fun g => match_test (length (fr_units r)) (eval rematch g r) i) l.
+Proof. exact or_is_disjunction. Qed.
+Print Assumptions C06_or_is_disjunction.
+
+Theorem C06_not_is_negation :
+  forall rematch r g i, i < length (fr_units r) ->
+  match_test (length (fr_units r)) (eval rematch (FNot g) r) i
+  = negb (match_test (length (fr_units r)) (eval rematch g r) i).
+Proof. exact not_is_negation. Qed.
+Print Assumptions C06_not_is_negation.
 
 (** '*' is true; key:(a OR b) is the disjunction of key:a and key:b *)
 Theorem C06_star_true : forall rematch r i, denote rematch (FAnd []) r i = true.
@@ -72,5 +281,11 @@ Example C06_example :
                  (repeat (bs "sec/op", bs "ns/op") 32 ++ [(bs "B/op", [])]) in
   let f := FAnd [FMatch (bs "goos") (MLit (bs "linux")) 0; FNot (FMatch (bs ".unit") (MLit (bs "ns/op")) 0)] in
   List.filter (match_test 33 (eval (fun _ _ => false) f r)) (seq 0 33) = [32]
-  /\ match_apply (eval (fun _ _ => false) f r) (seq 0 33) = ([32], true).
-Proof. split; vm_compute; reflexivity. Qed.
+  /\ match_apply (eval (fun _ _ => false) f r) (seq 0 33) = ([32], true)
+  (* the last word after NOT: bit 0 (measurement 32) and all 31 bits above n *)
+  /\ fst (eval (fun _ _ => false) f r) = Some [0%N; 4294967295%N]
+  /\ match_all 33 (eval (fun _ _ => false) f r) = false
+  /\ match_any 33 (eval (fun _ _ => false) f r) = true
+  /\ match_any 33 (eval (fun _ _ => false) (FNot f) r) = true
+  /\ match_all 33 (eval (fun _ _ => false) (FOr [f; FNot f]) r) = true.
+Proof. repeat split; vm_compute; reflexivity. Qed.
